@@ -27,7 +27,7 @@ BYTES == [ da |-> <<2>>, daa |-> <<2, 2>>, dab |-> <<2, 3>>, db |-> <<3>>, dzz |
            t1 |-> <<4, 2, 2>>, tX |-> <<4, 3, 3>>,
            c9 |-> <<5, 9>>, c10 |-> <<5, 1>>, c11 |-> <<5, 2>>, c12 |-> <<5, 3>>, c13 |-> <<5, 4>>, c14 |-> <<5, 5>>,
            c15 |-> <<5, 6>>, c16 |-> <<5, 7>>, c17 |-> <<5, 8>>, c18 |-> <<6, 1>>, c19 |-> <<6, 2>>, c20 |-> <<6, 3>> ]
-MCKeyBytes(id) == IF id \in DOMAIN BYTES THEN BYTES[id] ELSE <<9, 9>>
+MCKeyBytes(x) == IF x.id \in DOMAIN BYTES THEN BYTES[x.id] ELSE <<9, 9>>
 MCAddrOfIndex(n) == "c" \o ToString(n)
 
 Registered == {"da", "daa", "dab", "db"}            \* dzz is never registered
